@@ -14,7 +14,7 @@ func init() {
 		RealParts:  []string{"mateMultipoint, mateMultipointAvg, mateSinglePoint and the gene/node/trait copy constructors they use", "the epochs that produce the parents", "the crossover coin flips (math/rand seeded from the tape per call)"},
 		StubParts:  []string{"fitness values of the parents (drawn, with ties)", "fitness assignment during the preparatory epochs"},
 		Assumes:    []string{"parents have a common ancestry (consistent innovation numbers, equal trait counts) - random-start populations are excluded as the property says", "on a full tie (equal fitness, equal gene counts) either parent may supply the exclusive genes, but only one"},
-		ProbeNames: []string{"probe.exclusive_disabled_gene", "probe.both_have_exclusive_genes", "probe.fitness_tie", "probe.full_tie", "probe.excess_on_less_fit", "probe.same_link_two_numbers", "probe.self_mating", "probe.shared_gene_disabled_in_one"},
+		ProbeNames: []string{"probe.exclusive_disabled_gene", "probe.both_have_exclusive_genes", "probe.fitness_tie", "probe.full_tie", "probe.excess_on_less_fit", "probe.same_link_two_numbers", "probe.self_mating", "probe.shared_gene_disabled_in_one", "probe.parents_same_genome_id"},
 	})
 }
 
